@@ -6,7 +6,7 @@ from fractions import Fraction
 import z3
 
 from symx.core import CTX, PathAbort, Unsupported
-from symx.scalar import SReal, INF, NINF
+from symx.scalar import SReal, INF, NINF, FP_MODE as FP_MODE_
 from symx.oracle import UF
 from . import common
 from .c08 import ne, zor
@@ -38,12 +38,35 @@ def install_cut(W, ctx):
             return orig_iter(self, stp, f, g, task)
         except CutTail:
             c = CTX
-            self.brackt = c.choose("brackt")
-            for nm in ("stx", "fx", "gx", "sty", "fy", "gy", "stmin", "stmax", "width", "width1"):
-                setattr(self, nm, SReal(c.fresh("dcs_" + nm)))
-            new = SReal(c.fresh("dcs_stp"))
+            # the havoc is a FUNCTION of what the tail received (memoised per path on the syntactic inputs), so
+            # that two runs of one path context fed the same values see the same trial sequence
+            def k1(v):
+                v = SReal.of(v)
+                return ("z", v.z().sexpr()) if v.is_symbolic else ("c", repr(v.v))
+            key = ("dcs_cut", k1(stp), k1(f), k1(g), k1(self.stpmin), k1(self.stpmax), k1(self.finit), k1(self.ginit))
+            memo = c.cache.get(key)
+            if memo is None:
+                memo = dict(brackt=c.choose("brackt"), new=None, vals={})
+                for nm in ("stx", "fx", "gx", "sty", "fy", "gy", "stmin", "stmax", "width", "width1"):
+                    if FP_MODE_[0]:
+                        from symx.scalar_fp import SFP
+                        memo["vals"][nm] = SFP(c.fp("dcs_%s!%d" % (nm, len(c.names))))
+                    else:
+                        memo["vals"][nm] = SReal(c.fresh("dcs_" + nm))
+                if FP_MODE_[0]:
+                    from symx.scalar_fp import SFP
+                    memo["new"] = SFP(c.fp("dcs_stp!%d" % len(c.names)))
+                else:
+                    memo["new"] = SReal(c.fresh("dcs_stp"))
+                c.cache[key] = memo
+                c.keep.extend([SReal.of(v).z() for v in (stp, f, g) if SReal.of(v).is_symbolic])
+            self.brackt = memo["brackt"]
+            for nm, v in memo["vals"].items():
+                setattr(self, nm, v)
+            new = memo["new"]
             lo, hi = SReal.of(self.stpmin), SReal.of(self.stpmax)
-            c.assume(z3.And(new.z() >= lo.z(), new.z() <= hi.z()))
+            r1, r2 = new >= lo, new <= hi
+            c.assume(z3.And(r1 if isinstance(r1, bool) else r1.e, r2 if isinstance(r2, bool) else r2.e))
             return new, f, g, b"FG"
     dcs.dcstep = cut
     dcs.DCSRCH._iterate = iterate
